@@ -267,6 +267,7 @@ func TestC19_PeerVersion(t *testing.T) { pbt.Run(t, "C19", "peerversion", genC19
 
 type c19Transfer struct {
 	A, B       []byte // version sets of the two instances (subsets of {0,1})
+	FramedLook bool   // the stored value begins with the LEB128 of its own remaining length
 	NoSlot     bool   // B has no inbound transfer slot: its answer is "everything declined", in the encoding of the common version
 	Prior      []byte // non-empty: the asker ran with this version set before (same identity and endpoint), contacted B, and restarted with A
 	ContentLen int    // FINDCONTENT payload size (> inline threshold => uTP)
@@ -285,7 +286,7 @@ func genC19Transfer(t *rapid.T) c19Transfer {
 	if rapid.IntRange(0, 2).Draw(t, "hasprior") == 0 {
 		prior = rapid.SampledFrom([][]byte{{0}, {1}, {0, 1}}).Draw(t, "prior")
 	}
-	return c19Transfer{A: rapid.SampledFrom(sets).Draw(t, "a"), B: rapid.SampledFrom(sets).Draw(t, "b"), Prior: prior, NoSlot: rapid.IntRange(0, 4).Draw(t, "noslot") == 0,
+	return c19Transfer{A: rapid.SampledFrom(sets).Draw(t, "a"), B: rapid.SampledFrom(sets).Draw(t, "b"), Prior: prior, NoSlot: rapid.IntRange(0, 4).Draw(t, "noslot") == 0, FramedLook: rapid.IntRange(0, 2).Draw(t, "framedLook") == 0,
 		ContentLen: rapid.SampledFrom([]int{1200, 1500, 4000, 30000, 120000}).Draw(t, "clen"), Items: items}
 }
 
@@ -293,6 +294,30 @@ func fillBytes(n int, seed byte) []byte {
 	b := make([]byte, n)
 	for i := range b {
 		b[i] = byte(i*13) ^ seed
+	}
+	return b
+}
+
+// selfDescribing overwrites the start of b with the LEB128 encoding of the number of bytes that follow it: read as a
+// version-1 stream, b would be exactly one framed item. A version-0 stream is the raw value, whatever it looks like.
+func selfDescribing(b []byte) []byte {
+	for k := 1; k <= 5 && k < len(b); k++ {
+		v := uint64(len(b) - k)
+		var enc []byte
+		for {
+			c := byte(v & 0x7f)
+			v >>= 7
+			if v != 0 {
+				enc = append(enc, c|0x80)
+			} else {
+				enc = append(enc, c)
+				break
+			}
+		}
+		if len(enc) == k {
+			copy(b, enc)
+			return b
+		}
 	}
 	return b
 }
@@ -452,6 +477,10 @@ func c19FindContent(a, b *pp.Live, p c19Transfer, common uint8, c *stats.Case) e
 	// --- large FINDCONTENT a <- b
 	key := contentKey(1000)
 	want := fillBytes(p.ContentLen, 0x5a)
+	if p.FramedLook {
+		want = selfDescribing(want)
+		c.Class("stored-value-looks-like-a-framed-stream")
+	}
 	if err := b.Store.Put(key, b.P.ToContentId(key), want); err != nil {
 		return fmt.Errorf("harness: %v", err)
 	}
